@@ -66,6 +66,7 @@ type Gate struct {
 	wSuspend chan struct{}
 	wRound   chan struct{} // the worker is parked before a phase-2 round of a removal
 	parkRound bool
+	rec      *ltRec // trace recorder of a free-running replay (harness/replay/ledgertrace.go)
 }
 
 func newGate() *Gate {
@@ -95,7 +96,11 @@ func init() {
 		}
 		g.mu.Lock()
 		open := g.open
+		rec := g.rec
 		g.mu.Unlock()
+		if rec != nil {
+			rec.gate(point)
+		}
 		if open {
 			return
 		}
@@ -1225,6 +1230,72 @@ type Result struct {
 
 // Replay runs one history in a fresh world under dir.
 func Replay(u *Universe, h History, dir string) (res Result) {
+	return replayOpt(u, h, dir, false)
+}
+
+// doApiWithTx performs the API call s (Import / Remove) and lets the follower take the unconfirmed
+// transaction of step next while the call is at its commit: the keystore of a wallet being imported is
+// registered, its status record not yet committed.  The follower's read transactions run inside that
+// window; its update (if any) waits for the call's write transaction like any writer.
+func (w *World) doApiWithTx(s, next *Step) error {
+	if len(w.qT) == 0 || w.qT[0] != next.T {
+		return fmt.Errorf("harness queue %v does not start with tx %s", w.qT, next.T)
+	}
+	api := goid()
+	fired, arrived := false, false
+	began := make(chan struct{}, 1)
+	var herr error
+	db := w.DB
+	db.SetHooks(dbwrap.Hooks{OnCall: func(idx int64, kind string) error {
+		g := goid()
+		if g != api {
+			if kind == "begin" {
+				select {
+				case began <- struct{}{}:
+				default:
+				}
+			}
+			return nil
+		}
+		if kind != "commit" || fired {
+			return nil
+		}
+		fired = true
+		w.qT = w.qT[1:]
+		w.H.OnTransactionReceived(w.Tx[next.T])
+		select {
+		case w.G.release <- struct{}{}:
+		case <-time.After(10 * time.Second):
+			herr = fmt.Errorf("handler not parked at its gate")
+			return nil
+		}
+		select {
+		case <-w.G.arrived:
+			arrived = true
+		case <-began:
+		case <-time.After(10 * time.Second):
+			herr = fmt.Errorf("harness: follower neither finished nor reached its update within 10s")
+		}
+		return nil
+	}})
+	err := w.Do(s)
+	db.SetHooks(dbwrap.Hooks{})
+	if err != nil {
+		return err
+	}
+	if herr != nil {
+		return herr
+	}
+	if !fired {
+		return fmt.Errorf("harness: model-mismatch: the API call made no commit")
+	}
+	if !arrived {
+		return w.waitTop()
+	}
+	return nil
+}
+
+func replayOpt(u *Universe, h History, dir string, txInsideApi bool) (res Result) {
 	res.OK = true
 	if u.Unit > 0 {
 		Unit = u.Unit
@@ -1236,9 +1307,17 @@ func Replay(u *Universe, h History, dir string) (res Result) {
 		return Result{OK: false, Step: -1, Err: "setup: " + err.Error()}
 	}
 	defer w.Close()
+	skip := false
 	for i := range h {
 		s := &h[i]
-		if err := w.Do(s); err != nil {
+		if skip {
+			skip = false
+		} else if txInsideApi && (s.A == "Import" || s.A == "Remove") && i+1 < len(h) && h[i+1].A == "HandleTx" {
+			if err := w.doApiWithTx(s, &h[i+1]); err != nil {
+				return Result{OK: false, Step: i, Action: s.A, Err: err.Error(), Compared: res.Compared}
+			}
+			skip = true
+		} else if err := w.Do(s); err != nil {
 			return Result{OK: false, Step: i, Action: s.A, Err: err.Error(), Compared: res.Compared}
 		}
 		if s.Exp.Q {
@@ -1285,6 +1364,8 @@ func Run(u *Universe, h History, dir, mode string, opt Options) Result {
 	switch mode {
 	case "", "plain":
 		return Replay(u, h, dir)
+	case "tx-inside-api":
+		return replayOpt(u, h, dir, true)
 	case "count":
 		return CountCalls(u, h, dir)
 	case "fault":
@@ -1301,6 +1382,8 @@ func Run(u *Universe, h History, dir, mode string, opt Options) Result {
 		return ReplayTxBuild(u, h, dir, opt.Seed, opt.Sweep)
 	case "free":
 		return ReplayFree(u, h, dir, opt.Seed)
+	case "trace":
+		return ReplayTraced(u, h, dir, opt.Seed)
 	case "stop-free":
 		return StopFree(u, opt.Tasks, opt.Blocks, opt.Seed, opt.Final, dir)
 	case "gap":
@@ -1319,6 +1402,11 @@ func (w *World) PendingSet() (names []string, unreadable []string, err error) {
 		return nil, nil, err
 	}
 	defer rtx.Rollback()
+	return w.pendingIn(rtx)
+}
+
+// pendingIn reads the pending set through the given transaction.
+func (w *World) pendingIn(rtx mwdb.ReadTransaction) (names []string, unreadable []string, err error) {
 	top := rtx.TopLevelBucket("t")
 	if top == nil {
 		return nil, nil, fmt.Errorf("bucket t missing")
@@ -1327,10 +1415,13 @@ func (w *World) PendingSet() (names []string, unreadable []string, err error) {
 	if b == nil {
 		return nil, nil, fmt.Errorf("bucket t/m missing")
 	}
-	it := b.NewIterator(nil)
-	defer it.Release()
-	for it.Next() {
-		k, v := it.Key(), it.Value()
+	// a prefix read reflects the writes of an open write transaction (an iterator need not)
+	ents, err := b.GetByPrefix([]byte{})
+	if err != nil {
+		return nil, nil, err
+	}
+	for _, en := range ents {
+		k, v := en.Key, en.Value
 		var h wire.Hash
 		copy(h[:], k)
 		name, ok := w.TxName[h]
@@ -1343,7 +1434,7 @@ func (w *World) PendingSet() (names []string, unreadable []string, err error) {
 		}
 		names = append(names, name)
 	}
-	return names, unreadable, it.Error()
+	return names, unreadable, nil
 }
 
 func contains(l []string, x string) bool {
